@@ -86,11 +86,15 @@ def fam_variants(nmax: int, *, batch: int = 2, cross: bool = False) -> Iterator[
                 spec = mk_spec(shape, types=types)
                 for p in all_subsets(range(n)):
                     yield Config(spec=spec, requested=full, precached=tuple(p), batch=batch)
-            # request orders / duplicates
+            # request orders / duplicates (cold, and with every single node pre-cached: a cached task
+            # that occurs as several equal instances)
             spec = mk_spec(shape)
             for req in reqs:
                 yield Config(spec=spec, requested=req, batch=batch)
                 yield Config(spec=mk_spec(shape, dup=True), requested=req, batch=batch)
+                if len(req) > 1:
+                    for i in sorted({i for i, _ in req}):
+                        yield Config(spec=mk_spec(shape, dup=True), requested=req, precached=(i,), batch=batch)
 
 
 def fam_faults(nmin: int, nmax: int, *, max_faults: int = 1, batch: int = 2, kinds=('raise', 'died'),
